@@ -52,7 +52,8 @@ pub struct TestSpec {
     #[serde(default)]
     pub wait_ms: Option<u64>,
     /// the command first makes its shell deaf to SIGTERM: 0 = no, 1 = `trap '' TERM` (ignored),
-    /// 2 = `trap 'echo cleanup' TERM` (handler). No influence on the model: a limit bounds such a
+    /// 2 = `trap 'echo cleanup' TERM` (handler); or it gives up its output streams before it goes
+    /// on: 3 = `exec >&- 2>&-` (closed), 4 = `exec >/dev/null 2>&1` (redirected). No influence on the model: a limit bounds such a
     /// command like any other
     #[serde(default)]
     pub trap_term: u8,
